@@ -41,6 +41,13 @@ class Unsupported(BaseException):
         self.reason = reason
 
 
+class ReplayDivergence(Unsupported):
+    """The harness did not behave deterministically under replay."""
+
+    def __init__(self, what):
+        super().__init__("replay divergence: harness is not a deterministic function of the decisions")
+
+
 class Budget(BaseException):
     """Exploration budget for this item exhausted."""
 
@@ -142,7 +149,7 @@ class Ctx:
         if self.pos < len(self.prefix):
             d = self.prefix[self.pos]
             if not isinstance(d, bool):
-                raise RuntimeError("replay divergence (bool expected)")
+                raise ReplayDivergence("bool")
         else:
             self.n_decided += 1
             t = self.check(cond) != "unsat"
@@ -172,7 +179,7 @@ class Ctx:
         if self.pos < len(self.prefix) and not isinstance(
             self.prefix[self.pos], tuple
         ):
-            raise RuntimeError("replay divergence (value expected)")
+            raise ReplayDivergence("value")
         if self.pos < len(self.prefix) and self.prefix[self.pos][0] == "val":
             v = self.prefix[self.pos][1]
         else:
@@ -581,6 +588,8 @@ class SReal:
         return SReal(z3.If(self.e >= 0, self.e, -self.e))
 
     def __pow__(self, k):
+        if type(k) is float and k == 1.0:
+            return self
         if type(k) is int and k >= 0:
             r = 1
             for _ in range(k):
